@@ -24,7 +24,7 @@ func propC19(c *Ctx, r *Report) {
 		a := ci.Common().Args
 		r.check(valuePath(a[3]) == "pegnet.PegnetdSyncVersion" && valuePath(a[2]) == "height" && valuePath(a[1]) == "tx", "C19-R1/version-recorded", "MarkHeightSynced records PegnetdSyncVersion for the given height on the given tx", c.ipos(ci), "", fmt.Sprintf("arguments are (%s, %s, %s)", valuePath(a[1]), valuePath(a[2]), valuePath(a[3])))
 	}
-	for _, ci := range findCalls(mv, "database/sql.(*Stmt).Exec") {
+	for _, ci := range findCalls(mv, "database/sql.Stmt.Exec") {
 		els := varargElems(ci.Common().Args[1])
 		okk := len(els) == 3 && valuePath(els[0]) == "height" && valuePath(els[1]) == "version"
 		r.check(okk, "C19-R1/version-recorded", "version row = (height, version, now)", c.ipos(ci), "", "the INSERT into pn_sync_version does not bind (height, version, timestamp)")
@@ -45,7 +45,7 @@ func propC19(c *Ctx, r *Report) {
 		{"check fails, no override", fresh, false, false},
 		{"check fails, override flag set", fresh, true, true},
 	} {
-		sc := &Scenario{Calls: map[string]AVal{"CheckHardForks": cs.chk, "github.com/spf13/viper.(*Viper).GetBool": cBool(cs.flag), "Init": nilVal,
+		sc := &Scenario{Calls: map[string]AVal{"CheckHardForks": cs.chk, "github.com/spf13/viper.Viper.GetBool": cBool(cs.flag), "Init": nilVal,
 			"SelectSynced": {K: ATuple, Tup: []AVal{nonNil, nilVal}}}, MaxDepth: 0}
 		t := newSCCP(c, sc).analyse(np, nil)
 		r.Scen++
@@ -186,6 +186,19 @@ func propC19(c *Ctx, r *Report) {
 	}
 	for _, ci := range findCalls(chf, "pegnet.Pegnet.FetchMinSyncedVersion") {
 		r.check(typePath(ci.Common().Args[2]) == "pegnet.ForkEvent.ActivationHeight", "C19-R3/fork-table", "fork check asks from the fork's height", c.ipos(ci), "", "FetchMinSyncedVersion is given "+typePath(ci.Common().Args[2]))
+	}
+
+	// the tracked range is read after the legacy markers have been written
+	for _, rd := range []string{"pegnet.Pegnet.HighestSynced", "pegnet.Pegnet.FetchMinSyncedVersion", "pegnet.Pegnet.FetchMaxSyncedVersion"} {
+		for _, rc := range findCalls(chf, rd) {
+			late := ""
+			for _, wc := range findCalls(chf, "pegnet.Pegnet.markHeightSyncedVersion") {
+				if instrReaches(rc, wc) {
+					late = c.ipos(wc)
+				}
+			}
+			r.check(late == "", "C19-R3/fork-table", shortCallee(rc.Common())+" sees the legacy markers", c.ipos(rc), "no marker write can follow the read", "the -1 marker written at "+late+" can follow this read of pn_sync_version: on the first start over a legacy database the check runs on the range as it was before the markers existed and accepts it")
+		}
 	}
 
 	// R4 fork table sanity
